@@ -20,7 +20,7 @@ sys.path.insert(0, HERE)
 import z3  # noqa: E402
 from vc import build, ir, symex, smt, replay  # noqa: E402
 
-CONTRACT_MODULES = ['calendar', 'period', 'clock']
+CONTRACT_MODULES = ['calendar', 'period', 'clock', 'registrar', 'timezone']
 
 
 class Run:
@@ -46,6 +46,7 @@ class Run:
         self.solver_time = 0.0
         self.backends = {}
         self.samples = []
+        self.refutation = None     # a concrete failing input found by the property's bounded refuter
 
     def ex_for(self, o=None):
         return symex.Executor(self.mod, self.reg.REG)
@@ -169,6 +170,9 @@ def triage(R):
                     replayed = any(v is False for _, v in res)
                 except Exception as e:
                     rep['post_eval_error'] = repr(e)
+        if not replayed and R.refutation:
+            rep['refuter_found'] = R.refutation
+            replayed = True
         rep['replayed_on_real_code'] = replayed
         if key.split('#case-')[0] in kmap:
             if not any(k is kmap[key.split('#case-')[0]] for k, _ in R.known_hits):
@@ -251,6 +255,19 @@ ASSUMPTIONS = [
 
 
 def finish(R, level, explanation):
+    vac = [c for c in R.covers if c[1] == 'requires-satisfiable' and c[2] == 'unsat']
+    if vac:
+        R.log('VACUOUS precondition(s):', vac)
+        write_evidence(R, level, 'vacuous precondition: ' + repr(vac))
+        return 3
+    if R.refutation and not any(o.status == 'sat' for o in R.obligations):
+        # the bounded stand-in found a failing input although every proof obligation passed
+        rdir = os.path.join(HERE, 'replays', R.prop)
+        os.makedirs(rdir, exist_ok=True)
+        path = os.path.join(rdir, 'bounded_refutation.json')
+        with open(path, 'w') as f:
+            json.dump(R.refutation, f, indent=1, default=str)
+        R.violations.append(dict(key='bounded:' + str(R.refutation.get('case', ''))[:120], replay=path, replayed=True, what='bounded stand-in'))
     slow = sorted(R.obligations, key=lambda o: -o.time)[:8]
     R.log('slowest:', [(o.name, round(o.time, 1), o.backend) for o in slow if o.time > 1])
     triage(R)
